@@ -80,6 +80,63 @@ def _complete_defaults(text: str) -> bool:
     return False
 
 
+def _remove_elements_semantics(ctx: Ctx, model, rm) -> bool:
+    """remove_elements interpreted (sa.miniinterp) on a registry of stand-in classes: two built-ins (one private), two
+    registered user classes (one private) and unregistered user classes that carry the symbol of a built-in, of a registered
+    user class, or a free one (a class whose registration was refused still carries the symbol it asked for)."""
+    from ..miniinterp import InterpRaise, Mini, module_globals
+
+    class El:
+        _symbol = ""
+
+        @classmethod
+        def get_symbol(cls):
+            return cls._symbol
+
+    def mk(name, sym):
+        return type(name, (El,), {"_symbol": sym})
+    if any(isinstance(x, ast.Global) for x in ast.walk(rm.node)):
+        ctx.note("remove_elements rebinds a module-level name (global statement): decided from its shape instead of by interpretation")
+        return False
+    Rb, Kb, Ua, Up = mk("BuiltinR", "R"), mk("BuiltinK", "K"), mk("UserU", "U"), mk("UserP", "P")
+    strays = [mk("RefusedR", "R"), mk("RefusedU", "U"), mk("RefusedK", "K"), mk("NeverRegistered", "Zz")]
+    inputs = [Ua, Up, Rb, Kb] + strays + [[Ua, Up], [Ua, Rb], [Kb, Up], [strays[0], Ua], [strays[1]], [Up, strays[2]]]
+    problems: List[str] = []
+    n = 0
+    for arg in inputs:
+        n += 1
+        defaults = {"R": Rb, "K": Kb}
+        reg = {"R": Rb, "K": Kb, "U": Ua, "P": Up}
+        priv = {"K": Kb, "P": Up}
+        st = {"_DEFAULT_ELEMENTS": defaults, "_ELEMENTS": reg, "_PRIVATE_ELEMENTS": priv, "Element": El,
+              "_is_boolean": lambda x: isinstance(x, bool), "_is_integer": lambda x: isinstance(x, int) and not isinstance(x, bool), "_is_string": lambda x: isinstance(x, str)}
+        g = module_globals(ctx.repo.modules[REG].tree, st)
+        g.update(st)
+        lst = arg if isinstance(arg, list) else [arg]
+        refuse = any(c in (Rb, Kb) for c in lst)
+        want_reg = dict(reg) if refuse else {k: v for k, v in reg.items() if v not in lst}
+        want_priv = dict(priv) if refuse else {k: v for k, v in priv.items() if v not in lst}
+        try:
+            Mini(g, max_steps=100000).call_function(rm.node, {rm.node.args.args[0].arg: (list(arg) if isinstance(arg, list) else arg)})
+            raised = None
+        except InterpRaise as e:
+            raised = e.kind
+        names = [c.__name__ for c in lst]
+        if refuse and raised is None:
+            problems.append(f"remove_elements({names}) does not refuse the built-in")
+        elif not refuse and raised is not None:
+            problems.append(f"remove_elements({names}) raises {raised}")
+        if reg != want_reg or priv != want_priv or defaults != {"R": Rb, "K": Kb}:
+            problems.append(f"after remove_elements({names}) the registry holds {sorted(reg)} (private {sorted(priv)}) instead of {sorted(want_reg)} (private {sorted(want_priv)})"
+                            + (": only the entries that hold the given classes may go — a class whose registration was refused carries the symbol of the element that won" if not refuse else ": a refused call must remove nothing"))
+    ctx.instance("R15.2", f"remove_elements interpreted on {n} arguments over a registry with public/private built-ins, user classes and unregistered classes carrying taken symbols")
+    if problems:
+        ctx.violation("R15.2", "remove_elements:semantics", REG, rm.node, problems[0] + (f" (+{len(problems) - 1} more)" if len(problems) > 1 else ""))
+    else:
+        ctx.ok()
+    return True
+
+
 def check(ctx: Ctx) -> None:
     model = get_model(ctx.repo)
     ctx.modules_consulted.update({REG, TOK, PARSER, "pyimpspec.circuit.elements", "pyimpspec.circuit.base"})
@@ -177,49 +234,51 @@ def check(ctx: Ctx) -> None:
     else:
         ctx.violation("R15.2", "register_element:duplicate-guard", REG, store[0],
                       "the store _ELEMENTS[symbol] = Class is not dominated by the refusal of an already registered symbol: built-ins can be shadowed")
-    ctx.instance("R15.2", "removal dominated by the default-element refusal")
-    w_rm = _global_writes(rm.node)
-    pops = [n for n, k in w_rm.get("_ELEMENTS", []) if k in ("pop", "del")]
-    if not pops:
-        raise AnalysisError("remove_elements: removal from _ELEMENTS not found")
-    cfg = CFG(rm.node)
-    refusal_ok = True
-    for pnode in pops:
-        st = pnode
-        while not isinstance(st, ast.stmt):
-            st = parent(st)
-        target = cfg.node_of(st).id
+    if not _remove_elements_semantics(ctx, model, rm):
+        ctx.instance("R15.2", "removal dominated by the default-element refusal")
+        w_rm = _global_writes(rm.node)
+        pops = [n for n, k in w_rm.get("_ELEMENTS", []) if k in ("pop", "del")]
+        if not pops:
+            raise AnalysisError("remove_elements: removal from _ELEMENTS not found")
+        cfg = CFG(rm.node)
+        refusal_ok = True
+        for pnode in pops:
+            st = pnode
+            while not isinstance(st, ast.stmt):
+                st = parent(st)
+            target = cfg.node_of(st).id
 
-        def is_refusal(nd) -> bool:
-            a = nd.ast
-            return isinstance(a, ast.For) and any(
-                isinstance(x, ast.If) and ("default_elements" in norm(x.test) or "_DEFAULT_ELEMENTS" in norm(x.test)) and always_exits(x.body)
-                for x in a.body)
-        if not cfg.must_pass(target, is_refusal):
-            refusal_ok = False
-    # the refusal loop must cover every element before anything is removed
-    if refusal_ok:
-        ctx.ok()
-    else:
-        ctx.violation("R15.2", "remove_elements:default-guard", REG, pops[0],
-                      "an element can be popped from _ELEMENTS without first passing the refusal of default elements: built-ins can be removed")
-    ctx.instance("R15.2", "the refusal in remove_elements protects ALL built-ins (public and private)")
-    from ..prov import Resolver
-    Rm = Resolver(rm.node)
-    prot = None
-    for x in walk_ordered(rm.node):
-        if isinstance(x, ast.If) and always_exits(x.body) and isinstance(x.test, ast.Compare) and isinstance(x.test.ops[0], ast.In) \
-                and isinstance(parent(x), ast.For):
-            prot = Rm.text(x.test.comparators[0], x)
-    if prot is None:
+            def is_refusal(nd) -> bool:
+                a = nd.ast
+                return isinstance(a, ast.For) and any(
+                    isinstance(x, ast.If) and ("default_elements" in norm(x.test) or "_DEFAULT_ELEMENTS" in norm(x.test)) and always_exits(x.body)
+                    for x in a.body)
+            if not cfg.must_pass(target, is_refusal):
+                refusal_ok = False
+        # the refusal loop must cover every element before anything is removed
         if refusal_ok:
-            raise AnalysisError("remove_elements: refusal test `element in <protected set>` not found")
-        ctx.note("remove_elements: no refusal of built-ins found (reported as R15.2 default-guard)")
-    elif _complete_defaults(prot):
-        ctx.ok()
-    else:
-        ctx.violation("R15.2", "remove_elements:protected-set", REG, rm.node,
-                      f"the set of protected built-ins is {prot[:70]}, which is not all of _DEFAULT_ELEMENTS (private built-ins such as K/Ky can be removed)")
+            ctx.ok()
+        else:
+            ctx.violation("R15.2", "remove_elements:default-guard", REG, pops[0],
+                          "an element can be popped from _ELEMENTS without first passing the refusal of default elements: built-ins can be removed")
+        ctx.instance("R15.2", "the refusal in remove_elements protects ALL built-ins (public and private)")
+        from ..prov import Resolver
+        Rm = Resolver(rm.node)
+        prot = None
+        for x in walk_ordered(rm.node):
+            if isinstance(x, ast.If) and always_exits(x.body) and isinstance(x.test, ast.Compare) and isinstance(x.test.ops[0], ast.In) \
+                    and isinstance(parent(x), ast.For):
+                prot = Rm.text(x.test.comparators[0], x)
+        if prot is None:
+            if refusal_ok:
+                raise AnalysisError("remove_elements: refusal test `element in <protected set>` not found")
+            ctx.note("remove_elements: no refusal of built-ins found (reported as R15.2 default-guard)")
+        elif _complete_defaults(prot):
+            ctx.ok()
+        else:
+            ctx.violation("R15.2", "remove_elements:protected-set", REG, rm.node,
+                          f"the set of protected built-ins is {prot[:70]}, which is not all of _DEFAULT_ELEMENTS (private built-ins such as K/Ky can be removed)")
+    from ..prov import Resolver
     ctx.instance("R15.1", "reset_default_parameter_values() without arguments covers ALL built-ins")
     Rd = Resolver(rdp.node)
     dom = None
